@@ -32,6 +32,18 @@ pub fn run(ctx: &mut Ctx) {
             let pt = other_document_as_mdl(&a, &mut rng, dt);
             deliver(ctx, "relabelled_document", "c05.spec", &a, &a.rdr, &reg, "right-root", &Alt::None, &pt, None);
         }
+        // someone else's mDL (same issuer, another device key) device-signed by this holder: in a fresh session and as
+        // the SECOND response of a session whose first response was this holder's authentic one
+        let pt = other_persons_mdl(&a, &mut rng);
+        deliver(ctx, "other_persons_document", "c05.spec", &a, &a.rdr, &reg, "right-root", &Alt::None, &pt, None);
+        if let Some(warm) = warmed_reader(&a, &a.rdr) {
+            deliver(ctx, "other_persons_document_round2", "c05.spec", &a, &warm, &reg, "right-root", &Alt::None, &pt, None);
+            for alt in [Alt::DevSigOtherKey, Alt::DevAttached(1), Alt::DevDocTypeOther, Alt::DevSigShape(4)] {
+                let mut pt = a.plaintext.clone();
+                apply(&alt, &a, &mut pt, &mut rng);
+                deliver(ctx, "device_auth_round2", "c05.spec", &a, &warm, &reg, "right-root", &alt, &pt, None);
+            }
+        } else { ctx.count("round2:not-reached"); }
         // cross-session replay: session A's authentic response, re-encrypted for session B's reader
         deliver(ctx, "cross_session", "c05.spec", &b, &b.rdr, &reg, "right-root", &Alt::None, &a.plaintext, None);
         deliver(ctx, "cross_session", "c05.spec", &a, &a.rdr, &reg, "right-root", &Alt::None, &b.plaintext, None);
